@@ -205,6 +205,7 @@ static void run_one(const block_t *b, const uint8_t *inset, uint64_t maskdesc, i
 	if (g_pf.roles) hi.roles = (int)((h >> 23) % 4 == 0 ? 1 + ((h >> 29) % 3) : 0);
 	else hi.roles = (int)((h >> 23) % 16 == 0 ? 1 + ((h >> 29) % 3) : 0);      /* an encoder+decoder instance now and then */
 	hi.dupcopy = 1;
+	hi.cb_early = hi.cbmode && (h >> 47) % 3 == 0;
 	g_session_preprobe = (h >> 51) % 5 == 0;
 	g_session_verbosity = (h >> 55) % 4 == 3 ? 2 : (h >> 55) % 4 == 2 ? 1 : 0;
 	hi.reenter = hi.cbmode && (h >> 43) % 4 == 0;
